@@ -27,7 +27,7 @@ Forms == {"plain", "escape", "escape-js", "escape-attr", "escape-css", "escape-u
           "tern-raw-else", "tern-raw-then", "tern-esc-else", "tern-paren-raw", "tern-chain-raw", "plain-q1", "plain-q2", "plain-q3", "attr-q1",
           "plain-q4", "js-q4", "css-q4", "url-q4", "attr-q4", "derived-orig", "derived-new",
           "escape-bogus", "escape-empty", "escape-upper", "paren-escape", "paren-attr", "paren-raw", "paren2-js"}
-Places == {"top", "if", "else", "for", "block", "inherited", "included", "embedded", "override", "capture", "section", "macro", "forelse", "override2"}
+Places == {"top", "if", "else", "for", "block", "inherited", "included", "embedded", "override", "capture", "section", "macro", "forelse", "override2", "top-txt", "top-js"}
 
 PrintOf(form) ==
   CASE form = "plain" -> PrintS(NameE("x"))
@@ -119,6 +119,9 @@ RequiredCt(name) ==
 Program(name, form, place) ==
   LET pr == PrintOf(form) IN
   CASE place = "top" -> (name :> <<Text("^"), pr, Text("$")>>)
+    (* text after the print that ends like a file name: for an inline template the source is all the name there is *)
+    [] place = "top-txt" -> (name :> <<Text("^"), pr, Text("$ see notes.txt")>>)
+    [] place = "top-js" -> (name :> <<Text("^"), pr, Text("$ and app.min.js")>>)
     [] place = "if" -> (name :> <<Text("^"), IfS(BoolE(TRUE), <<pr>>, <<Text("no")>>, TRUE), Text("$")>>)
     [] place = "else" -> (name :> <<Text("^"), IfS(BoolE(FALSE), <<Text("no")>>, <<pr>>, TRUE), Text("$")>>)
     [] place = "for" -> (name :> <<Text("^"), ForS("", "v", ArrE(<<IntE(1), IntE(2)>>), NoE, <<pr, Text(",")>>, <<>>, FALSE), Text("$")>>)
@@ -141,6 +144,8 @@ Program(name, form, place) ==
 EntryOf(name, place) == IF place \in {"included", "embedded"} THEN "host.html" ELSE name
 Decor(place, seg) ==
   CASE place \in {"top", "if", "else", "block", "forelse"} -> S2B("^") \o seg \o S2B("$")
+    [] place = "top-txt" -> S2B("^") \o seg \o S2B("$ see notes.txt")
+    [] place = "top-js" -> S2B("^") \o seg \o S2B("$ and app.min.js")
     [] place = "for" -> S2B("^") \o seg \o S2B(",") \o seg \o S2B(",$")
     [] place = "inherited" -> S2B("^c:") \o seg \o S2B("$")
     [] place = "included" -> S2B("^i:") \o seg \o S2B("$")
